@@ -86,10 +86,21 @@ def unknown_path_rule(F, rep):
             if "io::slippi::de::Event" in (c["init"].get("ty") or "") and (c["pat"].get("path") or "").endswith(("Some", "Ok")):
                 region = n
     empty_else = region is not None and (not region.get("else") or (region["else"].get("k") == "Block" and not region["else"].get("stmts") and not region["else"].get("tail")))
+    if region is None:
+        # the conversion result matched directly: `match Event::try_from(code) { Ok(Event::X) => .., Err(_) => {} }` — the arm an
+        # unknown code takes must do nothing
+        b_, m_, arms_ = events.find_dispatch(F)
+        if m_ is not None and (strip(m_["scrut"]).get("ty") or "").startswith("std::result::Result<io::slippi::de::Event") or (m_ is not None and (strip(m_["scrut"]).get("ty") or "").startswith("std::option::Option<io::slippi::de::Event")):
+            unk = arms_.get("_")
+            nothing = unk is not None and not [x for x in tir.walk(unk["body"]) if x.get("k") in ("Call", "MethodCall", "Assign", "AssignOp", "Ret", "Try", "Break")]
+            region, empty_else = m_, nothing
     rep.ob("unknown.region", region is not None and empty_else, fn, "dispatch", "known events must be handled inside `if let Some(event) = Event::try_from(code).ok()` with no else branch")
     if region is None:
         return
-    inside = set(id(x) for x in tir.walk(region["then"]))
+    if region.get("k") == "Match":
+        inside = set(id(x) for a in region["arms"] if a is not arms_.get("_") for x in tir.walk(a["body"]))
+    else:
+        inside = set(id(x) for x in tir.walk(region["then"]))
     allowed = ("state.event_counts", "state.bytes_read", "state.split_accumulator", "r", "buf", "code")
     bad = []
     n_out = 0
@@ -116,8 +127,18 @@ def unknown_path_rule(F, rep):
             prev, y = y, par[id(y)]
             if y.get("k") == "If":
                 c = strip(y["cond"])
-                is_split_test = c.get("k") == "Binary" and c.get("op") == "Eq" and "MessageSplitter" in tir.pretty(c) and "code" in [tir.place(c["l"]), tir.place(c["r"])]
+
+                def split_test(c):
+                    return c.get("k") == "Binary" and c.get("op") == "Eq" and "MessageSplitter" in tir.pretty(c) and "code" in [tir.place(c["l"]), tir.place(c["r"])]
+                is_split_test = split_test(c)
                 in_then = any(z is n for z in tir.walk(y["then"]))
+                if c.get("k") == "LetCond" and (c["pat"].get("path") or "").endswith("::Some") and in_then:
+                    # `if let Some(w) = V` where V is `if code == MessageSplitter { .. } else { None }`: Some only for a splitter block
+                    v = tir.LetEnv(root).resolve(c["init"])
+                    bb = tir.bool_branch(v) if v.get("k") in ("If", "Match") else None
+                    if bb is not None and bb[2] is not None and split_test(strip(bb[0])) and (strip(L.strip_try(bb[2])).get("path") or "").endswith("::None"):
+                        ok = True
+                        break
                 if is_split_test and in_then:
                     ok = True
                     break
@@ -261,6 +282,8 @@ def size_trigger_rule(F, G, rep, R):
 
 
 def run(F, rep, tier):
+    from props import C10
+    C10.same_version_rule(F, rep)
     G = reach.Graph(F)
     R = G.reachable(ENTRIES)
     size_source_rule(F, rep)
